@@ -50,7 +50,9 @@ GENERIC_ATOMS = ["a", "1", "-", ".", ":", "/", "a-", "1.", "a1", ".1", "-a", "a:
 GENERIC_BLOCKS = [["a", "-", "1"], ["/", "-", "."], ["a", ":", "1"], ["1", ".", "1"], ["a", "-", "a"], ["a/", "a-", "a."],
                   ["-", ":", "-"], ["A", "a", "-"]]
 GENERIC_PREFIX = ["", "a", "1", "RC-", "a-0:1-", "n:s:", "F-22-20150522"]
-GENERIC_SUFFIX = ["", "!", "\n", ".x86_64"]
+GENERIC_SUFFIX = ["", "!", "\n", ".x86_64",
+                  # valid tails: the pump sits in front of an input the target ACCEPTS (cost blow-ups of accepted inputs)
+                  "n:s", "a:1:2:c", "a-0:1-1.noarch", "a-1", "f-23-updates", "RC-1.0", "20150522.n.0", "1.0", "a"]
 SENTINELS = [("is_valid_release_short", "", "a", "!"), ("is_valid_release_short", "", "a-", "!"), ("is_valid_release_version", "", "1", "x"),
              ("is_valid_release_version", "", "1.", "x"), ("is_valid_release_type", "", "a", "!"), ("is_valid_release_type", "a", "1", "_"),
              ("create_release_id:short", "", "a", "!"), ("create_release_id:version", "", "1", "!"), ("parse_release_id", "", "a-", ""),
